@@ -1,0 +1,54 @@
+//go:build verif
+// +build verif
+
+package evaluation
+
+import (
+	"github.com/launchdarkly/go-sdk-common/v3/ldattr"
+	"github.com/launchdarkly/go-sdk-common/v3/ldcontext"
+	"github.com/launchdarkly/go-sdk-common/v3/ldvalue"
+	"github.com/launchdarkly/go-server-sdk-evaluation/v3/internal"
+)
+
+// This file is compiled only with the "verif" build tag. It adds read-only entry points used by the
+// external verification harness; it changes no existing behaviour.
+
+// VerifComputeBucket exposes computeBucketValue: the float32 bucket, the failure reason code and the error.
+func VerifComputeBucket(
+	enableSecondaryKey bool,
+	context ldcontext.Context,
+	isExperiment bool,
+	seed ldvalue.OptionalInt,
+	contextKind ldcontext.Kind,
+	key string,
+	attr ldattr.Ref,
+	salt string,
+) (float32, int, error) {
+	es := evaluationScope{owner: &evaluator{enableSecondaryKey: enableSecondaryKey}, context: context}
+	b, reason, err := es.computeBucketValue(isExperiment, seed, contextKind, key, attr, salt)
+	return b, int(reason), err
+}
+
+// VerifParseHexUint64 exposes internal.ParseHexUint64.
+func VerifParseHexUint64(data []byte) (uint64, bool) {
+	return internal.ParseHexUint64(data)
+}
+
+// VerifLocalBufferRun applies a sequence of appends to a LocalBuffer with the given initial capacity.
+// Each op is one of: a string (AppendString), a []byte (Append), a byte (AppendByte), an int (AppendInt).
+func VerifLocalBufferRun(initialCap int, ops []interface{}) []byte {
+	b := internal.LocalBuffer{Data: make([]byte, 0, initialCap)}
+	for _, op := range ops {
+		switch v := op.(type) {
+		case string:
+			b.AppendString(v)
+		case []byte:
+			b.Append(v)
+		case byte:
+			b.AppendByte(v)
+		case int:
+			b.AppendInt(v)
+		}
+	}
+	return b.Data
+}
